@@ -786,6 +786,25 @@ fn dump_body<'tcx>(cx: &Cx<'tcx>, def: LocalDefId) -> J {
         ]));
     }
     o.push(("blocks", J::Arr(blocks)));
+    // promoted constants (`&Enum::Variant`, `&[..]`): tiny bodies that only build a value
+    let mut proms = Vec::new();
+    for pbody in tcx.promoted_mir(did).iter() {
+        let pcx = BodyCx { cx, body: pbody, def, env };
+        let mut pblocks = Vec::new();
+        for (_, data) in pbody.basic_blocks.iter_enumerated() {
+            let stmts: Vec<J> = data.statements.iter().filter_map(|st| pcx.statement(st)).collect();
+            pblocks.push(J::Obj(vec![
+                ("cleanup", J::Bool(data.is_cleanup)),
+                ("stmts", J::Arr(stmts)),
+                ("term", pcx.terminator(data.terminator())),
+            ]));
+        }
+        proms.push(J::Obj(vec![
+            ("nlocals", n(pbody.local_decls.len())),
+            ("blocks", J::Arr(pblocks)),
+        ]));
+    }
+    o.push(("promoted", J::Arr(proms)));
     J::Obj(o)
 }
 
